@@ -29,6 +29,26 @@ CHECKS = {
          "Sound static analysis of structural necessary conditions: range checks dominate the verification core; strict DER parse dominates Verify; entropy fail-closed shape (ReadFull success dominates success, nil results on failure, rand flows nowhere else); hedged-nonce construction; signature encoding; hashToInt identical to the standard library's and the reference verify/sign core statements embed in order in the fork. Does not decide verdict equality with crypto/ecdsa on all inputs (two different arithmetic implementations).",
          "Trusts go/ssa, this checker's extractors and AST matcher, GOROOT's crypto/ecdsa source as reference, io.ReadFull/math/big/cryptobyte as documented.",
          "DESIGN.md §4 C13"),
+ "C08": ("symbolic term binding of the returned value + sibling agreement of context terms on SSA",
+         "Sound static analysis of structural necessary conditions: the value FinalizeIndex returns is exactly HKDF-SHA-384(unblinded key, salt = clientKey, info = IssuerOriginAlias) as a term over its first three arguments only (no cache/ClientState/anonymous-origin input), read with a checked ReadFull; client, attester-blind and attester-unblind contexts are the same term and the issuer's differs; the issuer blinds the request key with the index key of the unpadded origin; the attester accepts one request key per client blind. Does not prove that the blind cancels (group algebra) or collision resistance.",
+         "Trusts go/ssa, this checker's term evaluator, x/crypto/hkdf and crypto/elliptic as documented.",
+         "DESIGN.md §4 C08"),
+ "C12": ("symbolic layout/binding terms on SSA; switch-table extraction from phi edges; AST agreement with GOROOT crypto/ecdsa",
+         "Sound static analysis of structural necessary conditions: derivation layout of the blinding scalar (XMD DST, D||0x00||context, mod N, curve->hash/L table, unknown curves rejected, result is the element just computed, no mutable global state), a single derivation shared by blind/unblind/sign with arguments passed unchanged, inverse shapes (ScalarMult by k vs by k^-1 mod the same N; D*k mod N paired with the blinded public key), and the standard digest conversion/equations. Does not prove the algebraic laws or agreement with an independent hash-to-field.",
+         "Trusts go/ssa, this checker's term evaluator and AST matcher, circl expander/HashToField, crypto/elliptic, GOROOT crypto/ecdsa source.",
+         "DESIGN.md §4 C12"),
+ "C15": ("symbolic layout/binding terms with in-place mutation history on SSA; reachability to entropy sources; mutable-global query over may-write summaries",
+         "Sound static analysis of structural necessary conditions: the blinding scalar is SetBytes(SHA-512(blind||0x00||context)[:32]) - the same term at all three sites; blind/unblind/blinded-sign shapes; wrappers forward nil contexts and the right argument slots; no entropy source is reachable and no mutable package-level state is touched outside sync.Once. Does not prove the algebra or acceptance by a standard verifier.",
+         "Trusts go/ssa, VTA call graph with Once.Do resolved at the site, this checker's term evaluator and effect summaries, crypto/sha512.",
+         "DESIGN.md §4 C15"),
+ "C16": ("may-write effect analysis (parameter-sensitive, one-level field-sensitive bottom-up summaries over SSA incl. third-party bodies; reviewed std table) + whole-tail provenance of append bases",
+         "Sound static analysis of structural necessary conditions: no exported function may write (store, copy, append in place, callee) the memory of a byte-slice argument unless it is a documented destination; in-place appends onto struct fields require every store into that field to be a whole-tail view (flow-sensitive within the function, module-wide otherwise); exported methods write receiver state only through the encoding cache, their own mutators or safe appends. Does not decide value-level independence from spare capacity beyond the C03 len-bounds obligations.",
+         "Trusts go/ssa, VTA call graph, effects.go, the reviewed std write table (printed in evidence).",
+         "DESIGN.md §4 C16"),
+ "C17": ("may-write effect analysis over concurrent entry points (shared roots = receiver and key parameters, package-level variables); computed exemptions for sync.Once and constructor-forced lazy fields; result-aliasing query",
+         "Sound static analysis of a sufficient-and-necessary structural condition for race freedom among the listed calls: no may-write reaches memory of or reachable from a shared root or a package-level variable except synchronised containers, Once-protected tables and constructor-forced lazy initialisation, and no result aliases mutable package-level state. Two genuine violations inside circl v1.3.7 (in-place normalisation of the shared P-384 public-key element) are recorded as known findings. Three reviewed exceptions document call-graph/field-insensitivity artefacts, each confirmed race-free dynamically once.",
+         "Trusts go/ssa, VTA call graph, effects.go, the reviewed std write table and exception table (printed in evidence); std concurrency guarantees as documented.",
+         "DESIGN.md §4 C17"),
 }
 PENDING_REASON = "check under construction in this round (see DESIGN.md §4 for the planned static rule); not claimed until the rule runs clean on the tree and fires on its seeded breakage"
 NOT_APPLICABLE = {}
